@@ -369,7 +369,7 @@ func runC13Inner(c *C13Case) (res c13Result) { //nolint:cyclop,gocyclo,maintidx
 	}
 	var rmu sync.Mutex
 	var got []rx
-	var readAgain atomic.Int64
+	var readAgain, extendLeft, extendMs atomic.Int64
 	readerDone := make(chan struct{})
 	closed := false
 	if c.Reader && relay != nil {
@@ -386,6 +386,12 @@ func runC13Inner(c *C13Case) (res c13Result) { //nolint:cyclop,gocyclo,maintidx
 					if errors.As(err, &ne) && ne.Timeout() {
 						if readAgain.Add(-1) >= 0 {
 							continue // the deadline stays where it is: the next ReadFrom must fail as well
+						}
+						if extendLeft.Add(-1) >= 0 {
+							// an idle timeout: the deadline is moved on, without clearing it in between
+							_ = relay.SetReadDeadline(time.Now().Add(time.Duration(extendMs.Load()) * time.Millisecond))
+
+							continue
 						}
 						_ = relay.SetReadDeadline(time.Time{})
 
@@ -629,6 +635,12 @@ func runC13Inner(c *C13Case) (res c13Result) { //nolint:cyclop,gocyclo,maintidx
 				deadlineAt = time.Unix(0, 0) // long past (and the zero of another clock)
 			}
 			readAgain.Store(int64(op.Again))
+			rounds := 0
+			if op.N > 0 && op.N <= 1000 {
+				rounds = op.Burst // idle-timeout rounds: after each timeout the reader moves the deadline on by N ms
+			}
+			extendMs.Store(int64(op.N))
+			extendLeft.Store(int64(rounds))
 			_ = relay.SetReadDeadline(deadlineAt)
 			time.Sleep(time.Duration(max(op.N, 0))*time.Millisecond + 500*time.Microsecond)
 			synctest.Wait()
@@ -647,6 +659,35 @@ func runC13Inner(c *C13Case) (res c13Result) { //nolint:cyclop,gocyclo,maintidx
 			}
 			rmu.Unlock()
 			readAgain.Store(0)
+			if rounds > 0 && okTimeout && queuedEmpty(got, relayed) {
+				// every further round ends with a timeout N ms after the previous one
+				before := 0
+				rmu.Lock()
+				before = len(got)
+				rmu.Unlock()
+				time.Sleep(time.Duration(rounds*op.N)*time.Millisecond + time.Millisecond)
+				synctest.Wait()
+				more := 0
+				rmu.Lock()
+				for _, g := range got[before:] {
+					var ne net.Error
+					if g.err != nil && errors.As(g.err, &ne) && ne.Timeout() {
+						more++
+					}
+				}
+				rmu.Unlock()
+				extendLeft.Store(0)
+				select {
+				case <-readerDone:
+				default:
+					if more < rounds && queuedEmpty(got, relayed) {
+						fail("moved-read-deadline-ignored", "%s: after a timeout the reader moved the deadline on by %d ms, %d times in a row; only %d of those reads timed out, the others block", ctx, op.N, rounds, more)
+						_ = relay.SetReadDeadline(time.Now().Add(-time.Second))
+						_ = relay.SetReadDeadline(time.Time{})
+					}
+				}
+			}
+			extendLeft.Store(0)
 			if okTimeout && timeouts < 1+op.Again && queuedEmpty(got, relayed) {
 				select {
 				case <-readerDone:
@@ -831,6 +872,7 @@ func genC13(rt *rapid.T) *C13Case {
 		case "deadline":
 			op.N = rapid.SampledFrom([]int{1, 50, 1000, 30000, -1, -2}).Draw(rt, "ms")
 			op.Again = rapid.SampledFrom([]int{0, 0, 1, 3}).Draw(rt, "again")
+			op.Burst = rapid.SampledFrom([]int{0, 0, 1, 3}).Draw(rt, "idleRounds")
 		case "sleep":
 			op.N = rapid.SampledFrom([]int{1, 5, 31, 121, 301, 601}).Draw(rt, "secs")
 		case "close":
